@@ -395,6 +395,17 @@ func main() {
 		record("hand_farjfalse.bcb", "hand-assembled", x.desc, x.bytes(), true, "jfalse_0x8001")
 	}
 	{
+		x := newFile("latebind.bcl", "BIND whose block-type constant has index 300 (a two-byte uvarint operand), DEFBLOCK and SETFIELD with such indices too")
+		a := &x.a
+		for i := 0; i < 300; i++ {
+			x.k(bcfmt.Int(int64(5000 + i)))
+		}
+		tT, empty, f := x.k(bcfmt.Str("late")), x.k(bcfmt.Str("")), x.k(bcfmt.Str("field"))
+		a.Op(DEFBLOCK, tT, empty).Op(CONST, 299).Op(SETFIELD, f).Op(POP).Op(ENDBLOCK)
+		a.Op(BIND, tT, bcfmt.BindStruct|bcfmt.BindOne).Op(RET)
+		record("hand_latebind.bcb", "hand-assembled", x.desc, x.bytes(), true, "bind_2B_operand")
+	}
+	{
 		x := newFile("nopos.bcl", "a file whose positions and line tables are empty (their counts are independent of the code length)")
 		a := &x.a
 		a.Op(CONST, x.k(bcfmt.Str("no positions"))).Op(PRINT).Op(ONE).Op(PRINT).Op(RET)
